@@ -54,7 +54,8 @@ class C13(Prop):
         hostrows = C.read_jsonl(p3)
         if rc != 0 or not hostrows:
             raise RuntimeError("C13 host harness did not run: rc=%s\n%s" % (rc, out[-2000:]))
-        return {"open": [r for r in rows if r["kind"] == "open"], "route": [r for r in rows if r["kind"] == "route"], "redirect": redir, "host": hostrows}
+        return {"open": [r for r in rows if r["kind"] == "open"], "route": [r for r in rows if r["kind"] == "route"], "redirect": redir, "host": hostrows,
+                "route_body": [r for r in rows if r["kind"] == "route-body"]}
 
     @staticmethod
     def _cls(r):
@@ -71,6 +72,11 @@ class C13(Prop):
 
     def oracle(self, ctx, obs):
         res = []
+        for r in obs.get("route_body", []):
+            if r["status"] != 299 or r["wrapped_read"] != r["size"] or r.get("wrapped_err"):
+                res.append(("non-shim-request-body-altered", "a POST of %d bytes (%s) to a path outside the shim prefix reached the normal handler as %s bytes (%s), status %s" % (
+                    r["size"], "Content-Length" if r["declared_length"] else "no declared length", r["wrapped_read"], r.get("wrapped_err") or "no read error", r["status"]),
+                    {"driver": "TestVerifC13: websockets.Proxy with a recording wrapped handler; POST /api/upload", "observed": r}))
         for r in obs.get("host", []):
             rp = {"driver": "TestVerifC13Host: POST <shim>/open (Host: %s) with this body; the backend records the websocket handshake it receives" % r["request_host"], "observed": r}
             want = r["request_host"] if r["rewrite_host"] else r["backend"]
